@@ -677,11 +677,15 @@ func (pc *Parent) finish() int {
 	}
 
 	// replays
-	os.MkdirAll(filepath.Join(verifRoot, "replays"), 0755)
+	outRoot := verifRoot
+	if d := os.Getenv("LUNARMON_OUT"); d != "" {
+		outRoot = d // development aid: keep evidence/replays of seeded-change runs out of /verif
+	}
+	os.MkdirAll(filepath.Join(outRoot, "replays"), 0755)
 	var replayPaths []string
 	for _, v := range real {
 		name := fmt.Sprintf("%s-%016x.json", p.ID, hashStr(v.Key))
-		path := filepath.Join(verifRoot, "replays", name)
+		path := filepath.Join(outRoot, "replays", name)
 		rb, _ := json.MarshalIndent(map[string]interface{}{"property": p.ID, "tier": pc.Tier, "seed": pc.Seed, "violation": v}, "", " ")
 		os.WriteFile(path, rb, 0644)
 		replayPaths = append(replayPaths, path)
@@ -742,8 +746,8 @@ func (pc *Parent) finish() int {
 		"violations":  len(real),
 	}
 	eb, _ := json.MarshalIndent(ev, "", " ")
-	os.MkdirAll(filepath.Join(verifRoot, "evidence"), 0755)
-	os.WriteFile(filepath.Join(verifRoot, "evidence", p.ID+".json"), append(eb, '\n'), 0644)
+	os.MkdirAll(filepath.Join(outRoot, "evidence"), 0755)
+	os.WriteFile(filepath.Join(outRoot, "evidence", p.ID+".json"), append(eb, '\n'), 0644)
 
 	fmt.Printf("%s %s seed=%d: evaluations=%d distinct=%d cases=%d violations=%d known=%d masked=%v wall=%.1fs\n", p.ID, pc.Tier, pc.Seed, r.Evals, r.Distinct, pc.NCases, len(real), len(knownSeen), r.Masked, time.Since(pc.t0).Seconds())
 	names := make([]string, 0, len(r.Counters))
